@@ -188,7 +188,8 @@ impl St {
                 if !same {
                     if expect == MSend::Disc {
                         self.mismatch(
-                            if self.cfg.fut { "C13,C09,C15" } else { "C13,C09" },
+                            // (the removed streams still limit this sender: C11 as well)
+                            if self.cfg.fut { "C13,C09,C15,C11" } else { "C13,C09,C11" },
                             "no-receiver-send",
                             format!("no-receiver-send:returns-{:?}", got),
                             format!(
